@@ -130,6 +130,11 @@ def gen_case(rng, tier):
         req_paths.extend(rp)
     if rng.random() < 0.3:
         base = gen.place_flags(rng, base, p=0.15, vocab=('prio', 'del', 'md'), on_seq_elems=False)
+    rl_n, rl_req = 0, []
+    if rng.random() < 0.2:
+        rl_n = rng.choice([3, 4, 5])
+        rl_req = sorted(rng.sample(range(rl_n), rng.choice([2, 2, 3])))
+        base['items'].append(['rl', L([SP('required') if j in rl_req else S(mk.next(rng)) for j in range(rl_n)])])
     docs = [base]
     raw_texts = {}
     if rng.random() < 0.25:
@@ -180,6 +185,12 @@ def gen_case(rng, tier):
                 touched = True
         if d['items']:
             docs.append(d)
+    if rl_n:
+        # several placeholders of one list removed by ONE later stage, the positions written in any order (some counted from the end)
+        gone = rng.sample(rl_req, rng.randrange(2, len(rl_req) + 1)) if len(rl_req) >= 2 else list(rl_req)
+        rng.shuffle(gone)
+        docs.append(M([['rl', M([[(j - rl_n if rng.random() < 0.3 else j), S(None, vdel=True)] for j in gone])]]))
+        touched = True
     style = rng.choice(['flow', 'block'])
     return {'docs': docs, 'texts': [raw_texts.get(i) or emit.emit(x, style) for i, x in enumerate(docs)], 'nt': bool(req_paths) and touched}
 
